@@ -17,8 +17,29 @@ def outE (l : List (Except String Rat)) : String := showList showE l
 
 def sameLen (a b c : List Rat) : Bool := a.length == b.length && b.length == c.length
 
+def fn? : String → Option Fn
+  | "get_tasrange" => some .tasrange | "get_tasskew" => some .tasskew | "get_tasrange_tasskew" => some .rangeskew
+  | "get_tasmin" => some .tasmin | "get_tasmax" => some .tasmax | "get_tasmin_tasmax" => some .minmax
+  | "get_prsnratio" => some .prsnratio | "get_prsn" => some .prsn | "get_pr" => some .pr
+  | _ => none
+
+def step? (s : String) : Option Step :=
+  match s.splitOn "." with
+  | ["c", f] => (fn? f).map .call
+  | ["m", "shift_t", c] => (parseRat? c).map (fun c => .mod (.shiftT c))
+  | ["m", "scale_t", c] => (parseRat? c).map (fun c => .mod (.scaleT c))
+  | ["m", "perturb_tas", c] => (parseRat? c).map (fun c => .mod (.perturbTas c))
+  | ["m", "swap_content_rs", c] => (parseRat? c).map (fun c => .mod (.scaleRS c))
+  | ["m", "scale_pr", c] => (parseRat? c).map (fun c => .mod (.scalePr c))
+  | _ => none
+
 def step (line : String) : String :=
   match line.splitOn " " with
+  | ["seq", t, a, b, r, s, p, n, q, script] =>
+      match rats? t, rats? a, rats? b, rats? r, rats? s, rats? p, rats? n, rats? q, (script.splitOn ";").mapM step? with
+      | some t, some a, some b, some r, some s, some p, some n, some q, some sc =>
+          "|".intercalate ((run ⟨t, a, b, r, s, p, n, q⟩ sc).map (fun outs => ";".intercalate (outs.map outE)))
+      | _, _, _, _, _, _, _, _, _ => "bad-op"
   | ["tasrange", a, b] => match rats? a, rats? b with
       | some a, some b => if a.length == b.length then outQ (map2 getTasrange a b) else "bad-op"
       | _, _ => "bad-op"
